@@ -212,11 +212,12 @@ Proof.
   - destruct (op_eqb k OIncrement).
     + destruct (ichild_pos p s) as [i|]; [|exact KEEP]. destruct (nth_error (i_ch p) i) as [c|] eqn:N; [|exact KEEP]. apply (INC i c N).
     + destruct (is_dash s); [cbn [snd]; rewrite ids_add_item; apply sub_refl|].
-      destruct ((sw 32 (atoi s) >? Z.of_nat (length (i_ch p))) || (sw 32 (atoi s) <? 0)); [exact KEEP|].
-      destruct (sw 32 (atoi s) <? Z.of_nat (length (i_ch p))); cbn [snd].
+      destruct (arr_index s) as [idx|]; [|exact KEEP].
+      destruct ((idx >? Z.of_nat (length (i_ch p))) || (idx <? 0)); [exact KEEP|].
+      destruct (idx <? Z.of_nat (length (i_ch p))); cbn [snd].
       * rewrite ids_set_ch, flat_map_app. cbn [flat_map]. rewrite ids_set_par, ids_set_kl.
         rewrite (flat_map_ids_ext iinc_kl _ ids_inc_kl). rewrite (ids_unfold p). unfold kids.
-        rewrite <- (firstn_skipn (Z.to_nat (sw 32 (atoi s))) (i_ch p)) at 3. rewrite flat_map_app. cbn [app]. apply sub_cons.
+        rewrite <- (firstn_skipn (Z.to_nat idx) (i_ch p)) at 3. rewrite flat_map_app. cbn [app]. apply sub_cons.
         sperm. rewrite <- !app_assoc. apply Permutation_app_head. apply Permutation_app_comm.
       * rewrite ids_add_item, ids_set_kl. apply sub_refl.
 Qed.
@@ -390,9 +391,12 @@ Definition swap_kid_exists (par : node) (s : seg) : bool :=
   match n_ty par with
   | TObj => match child_pos par s with Some i => match nth_error (n_ch par) i with Some _ => true | None => false end | None => false end
   | TArr => if is_dash s then false
-            else if (0 <=? sw 32 (atoi s)) && (sw 32 (atoi s) <? Z.of_nat (length (n_ch par)))
-                 then match nth_error (n_ch par) (Z.to_nat (sw 32 (atoi s))) with Some _ => true | None => false end
-                 else false
+            else match arr_index s with
+                 | Some idx => if (0 <=? idx) && (idx <? Z.of_nat (length (n_ch par)))
+                               then match nth_error (n_ch par) (Z.to_nat idx) with Some _ => true | None => false end
+                               else false
+                 | None => false
+                 end
   | _ => false
   end.
 
@@ -409,9 +413,10 @@ Proof.
   - destruct (child_pos par (last path [])) as [i|]; [|inversion H; subst; split; reflexivity].
     destruct (nth_error (n_ch par) i); [discriminate|]. inversion H; subst. split; reflexivity.
   - destruct (is_dash (last path [])); [inversion H; subst; split; reflexivity|].
-    destruct ((0 <=? sw 32 (atoi (last path []))) && (sw 32 (atoi (last path [])) <? Z.of_nat (length (n_ch par))));
+    destruct (arr_index (last path [])) as [idx|]; [|inversion H; subst; split; reflexivity].
+    destruct ((0 <=? idx) && (idx <? Z.of_nat (length (n_ch par))));
       [|inversion H; subst; split; reflexivity].
-    destruct (nth_error (n_ch par) (Z.to_nat (sw 32 (atoi (last path []))))); [discriminate|].
+    destruct (nth_error (n_ch par) (Z.to_nat idx)); [discriminate|].
     inversion H; subst. split; reflexivity.
 Qed.
 
@@ -425,13 +430,13 @@ Proof.
     + rewrite nth_if in M. destruct (nth_error (i_ch par) i); [discriminate | discriminate].
     + inversion E. unfold iadd_item. eexists. reflexivity.
   - destruct (is_dash s); [inversion E; unfold iadd_item; eexists; reflexivity|].
-    rewrite len_map_if in M.
-    destruct ((sw 32 (atoi s) >? Z.of_nat (length (i_ch par))) || (sw 32 (atoi s) <? 0)) eqn:B; [discriminate|].
-    destruct (sw 32 (atoi s) <? Z.of_nat (length (i_ch par))) eqn:L.
+    rewrite len_map_if in M. destruct (arr_index s) as [idx|]; [|discriminate].
+    destruct ((idx >? Z.of_nat (length (i_ch par))) || (idx <? 0)) eqn:B; [discriminate|].
+    destruct (idx <? Z.of_nat (length (i_ch par))) eqn:L.
     + exfalso. apply orb_false_iff in B. destruct B as [B1 B2]. apply Z.ltb_ge in B2.
-      assert (A : (0 <=? sw 32 (atoi s)) = true) by (apply Z.leb_le; lia). rewrite A in M. cbn [andb] in M.
+      assert (A : (0 <=? idx) = true) by (apply Z.leb_le; lia). rewrite A in M. cbn [andb] in M.
       rewrite nth_if in M. apply Z.ltb_lt in L.
-      destruct (nth_error (i_ch par) (Z.to_nat (sw 32 (atoi s)))) eqn:N; [discriminate|]. apply nth_error_None in N. lia.
+      destruct (nth_error (i_ch par) (Z.to_nat idx)) eqn:N; [discriminate|]. apply nth_error_None in N. lia.
     + inversion E. unfold iadd_item. eexists. reflexivity.
 Qed.
 
@@ -474,8 +479,9 @@ Proof.
   - destruct (ichild_pos p s) as [i|]; [|intro F; exfalso; apply F; reflexivity].
     destruct (nth_error (i_ch p) i); [intro F; exfalso; apply F; reflexivity | reflexivity].
   - destruct (is_dash s); [intro F; exfalso; apply F; reflexivity|].
-    destruct ((sw 32 (atoi s) >? Z.of_nat (length (i_ch p))) || (sw 32 (atoi s) <? 0)); [reflexivity|].
-    destruct (sw 32 (atoi s) <? Z.of_nat (length (i_ch p))); intro F; exfalso; apply F; reflexivity.
+    destruct (arr_index s) as [idx|]; [|reflexivity].
+    destruct ((idx >? Z.of_nat (length (i_ch p))) || (idx <? 0)); [reflexivity|].
+    destruct (idx <? Z.of_nat (length (i_ch p))); intro F; exfalso; apply F; reflexivity.
 Qed.
 
 Lemma i_put_fail_same : forall rp fo k v, k <> OIncrement -> forall p n r n',
